@@ -14,6 +14,7 @@ from __future__ import annotations
 
 import ast
 
+from pv.q import text as qtext
 from pv.model import AnalysisError, walk_no_nested, params, UNKNOWN
 from pv import refs, bits as B
 from pv.norm import Normalizer
@@ -44,7 +45,7 @@ BFU = "passlib.crypto._blowfish.unrolled"
 
 def _F_shape(e, var):
     """is e == ((S0[v>>24] + S1[(v>>16)&255]) ^ S2[(v>>8)&255]) + S3[v&255]) & 0xFFFFFFFF  (S names free)"""
-    t = ast.unparse(e).replace("S[0]", "S0").replace("S[1]", "S1").replace("S[2]", "S2").replace("S[3]", "S3")
+    t = qtext(e).replace("S[0]", "S0").replace("S[1]", "S1").replace("S[2]", "S2").replace("S[3]", "S3")
     want = f"(S0[{var} >> 24] + S1[{var} >> 16 & 255] ^ S2[{var} >> 8 & 255]) + S3[{var} & 255] & 4294967295"
     return t == want
 
@@ -113,7 +114,7 @@ def rule_blowfish(model, rep):
     rep.check(returns(fn) == ["(r ^ p17, l)"], R, site(BFU, "BlowfishEngine.encipher"), "; ".join(returns(fn)), "final: return (r ^ p17, l)")
     # raw_bcrypt recipe
     fn = model.func(BF, "raw_bcrypt")
-    t = ast.unparse(fn)
+    t = qtext(fn)
     facts = [("password += BNULL", "NUL terminator appended for 2a/2b/2y"), ("salt = bcrypt64.decode_bytes(salt)", "salt decoded with the bcrypt alphabet"),
              ("salt = salt[:16]", "16 salt bytes"), ("pass_words = engine.key_to_words(password)", "password cycled into 18 words"),
              ("salt_words16 = salt_words[:4]", "first expansion uses the 4 salt words"), ("engine.eks_salted_expand(pass_words, salt_words16)", "salted key expansion (key, salt)"),
@@ -128,7 +129,7 @@ def rule_blowfish(model, rep):
     body = [ast.unparse(x) for x in [n for n in walk_no_nested(fn) if isinstance(n, ast.While)][0].body]
     rep.check(body == ["expand(key_words)", "expand(salt_words)", "n += 1"], R, site(BFB, "BlowfishEngine.eks_repeated_expand"), " | ".join(body), "each cost iteration expands with the key, then the salt")
     fn = model.func(BFB, "BlowfishEngine.key_to_words")
-    rep.check("data = repeat_string(data, size << 2)" in ast.unparse(fn) and "struct.unpack('>%dI' % (size,), data)" in ast.unparse(fn), R, site(BFB, "BlowfishEngine.key_to_words"),
+    rep.check("data = repeat_string(data, size << 2)" in qtext(fn) and "struct.unpack('>%dI' % (size,), data)" in qtext(fn), R, site(BFB, "BlowfishEngine.key_to_words"),
               "cycle to 4*size bytes; big-endian words", "key bytes are cycled and read as big-endian words")
 
 
@@ -249,7 +250,7 @@ def rule_des(model, rep):
             rep.undecided(R, site(DES, "des_encrypt_int_block"), f"salt expansion: {e}")
     else:
         rep.undecided(R, site(DES, "des_encrypt_int_block"), "salt expansion statement not found")
-    rep.check(has_stmt(fn, "L, R = (R, L)") and "while rounds:" in ast.unparse(fn), R, site(DES, "des_encrypt_int_block"), "rounds loop; swap halves", "multi-round variant repeats the 16 rounds and swaps halves")
+    rep.check(has_stmt(fn, "L, R = (R, L)") and "while rounds:" in qtext(fn), R, site(DES, "des_encrypt_int_block"), "rounds loop; swap halves", "multi-round variant repeats the 16 rounds and swaps halves")
     rep.check(has_if(fn, "rounds < 1") and has_if(fn, "salt < 0 or salt > INT_24_MASK"), R, site(DES, "des_encrypt_int_block"), "rounds >= 1; 24-bit salt", "argument ranges")
     # key expand / shrink as bit routings
     u = model.unit(DES)
@@ -259,7 +260,7 @@ def rule_des(model, rep):
     rep.check(returns(fn)[-1] == "bytes(((key >> shift & 127) << 1 for shift in _EXPAND_ITER))" or "bytes(((key >> shift & 127) << 1 for shift in _EXPAND_ITER))" in returns(fn), R,
               site(DES, "expand_des_key"), returns(fn)[-1], "each 7-bit group becomes a byte with a clear parity bit", witness="56-bit keys expand to the wrong 64-bit key (lmhash, des_encrypt_block)")
     fn = model.func(DES, "shrink_des_key")
-    t = ast.unparse(fn)
+    t = qtext(fn)
     rep.check("key >>= 1" in t and "result |= (key & 127) << offset" in t and "key >>= 8" in t and "offset += 7" in t and "while offset < 56:" in t, R, site(DES, "shrink_des_key"),
               "drop parity bit, take 7 bits per byte", "shrink is the inverse routing of expand")
     for name, val in (("INT_24_MASK", 0xFFFFFF), ("INT_56_MASK", (1 << 56) - 1), ("INT_64_MASK", (1 << 64) - 1), ("_KS_MASK", 0xFCFCFCFCFFFFFFFF)):
@@ -288,7 +289,7 @@ def rule_md4(model, rep):
     rep.check(returns(model.func(MD4, "G")) == ["x & y | x & z | y & z"], R, site(MD4, "G"), "; ".join(returns(model.func(MD4, "G"))), "G(x,y,z) = majority")
     rep.check(model.fold(u, ast.Name(id="MASK_32", ctx=ast.Load())) == 0xFFFFFFFF, R, site(MD4, "MASK_32"), "2**32-1", "32-bit mask")
     fn = model.func(MD4, "md4._process")
-    t = ast.unparse(fn)
+    t = qtext(fn)
     rep.check("X = struct.unpack('<16I', block)" in t, R, site(MD4, "md4._process"), "'<16I'", "block read as 16 little-endian words")
     loops = [n for n in walk_no_nested(fn) if isinstance(n, ast.For)]
     want = [("self._round1", "t = state[a] + F(state[b], state[c], state[d]) + X[k] & MASK_32"),
@@ -311,15 +312,15 @@ def rule_md4(model, rep):
               witness="h.update(64+ bytes); h.copy().digest() != h.digest(): the clone encodes a wrong message length")
     rep.check(has_stmt(cp, "other._state = list(self._state)"), R, site(MD4, "md4.copy"), "other._state = list(self._state)", "register list is copied, not shared")
     dg = model.func(MD4, "md4.digest")
-    t = ast.unparse(dg)
+    t = qtext(dg)
     rep.check("orig = list(self._state)" in t and "self._state = orig" in t, R, site(MD4, "md4.digest"), "state saved and restored", "digest() leaves the object usable for further update()",
               witness="digest() then update() continues from the padded state")
     rep.check("msglen = self._count * 512 + len(buf) * 8" in t, R, site(MD4, "md4.digest"), "msglen = count*512 + len(buf)*8", "message length in bits")
-    rep.check("b'\\x00' * ((119 - len(buf)) % 64)" in t and "struct.pack('<2I', msglen & MASK_32, msglen >> 32 & MASK_32)" in t, R, site(MD4, "md4.digest"),
+    rep.check(t.loose("b'\\x00' * ((119 - len(buf)) % 64)") and t.loose("struct.pack('<2I', msglen & MASK_32, msglen >> 32 & MASK_32)"), R, site(MD4, "md4.digest"),
               "padding: 0x80, zeros to 56 mod 64, 64-bit little-endian length", "RFC 1320 padding")
     rep.check("out = struct.pack('<4I', *self._state)" in t, R, site(MD4, "md4.digest"), "'<4I'", "digest = registers little-endian")
     up = model.func(MD4, "md4.update")
-    t = ast.unparse(up)
+    t = qtext(up)
     rep.check("next = idx + 64" in t and "if next <= end:" in t and "self._count += 1" in t and "self._buf = content[idx:]" in t and "content = buf + content" in t, R, site(MD4, "md4.update"),
               "64-byte blocks; count += 1; remainder buffered", "incremental update processes whole blocks and buffers the rest")
     for attr, val in (("digest_size", 16), ("block_size", 64)):
@@ -356,27 +357,27 @@ def rule_scrypt(model, rep):
         rep.check(good and not bad, R, site(SAL, "salsa20"), f"{len(body) // 2} operations; first deviation: {bad[0] if bad else None}",
                   "the 32 add-rotate-xor operations follow the column-round / row-round schedule with rotations 7, 9, 13, 18 and masks 2**(32-rot)-1",
                   witness="scrypt builtin backend output differs from RFC 7914 for every input")
-    fin = [ast.unparse(s) for s in fn.body if isinstance(s, ast.Assign) and ast.unparse(s.targets[0]).startswith("b") and "+ v" in ast.unparse(s)]
+    fin = [ast.unparse(s) for s in fn.body if isinstance(s, ast.Assign) and ast.unparse(s.targets[0]).startswith("b") and qtext(s).loose("+ v")]
     rep.check(fin == [f"b{i} = b{i} + v{i} & 4294967295" for i in range(16)], R, site(SAL, "salsa20"), f"{len(fin)} feed-forward statements", "output = input + rounds (mod 2**32) per word")
     # scrypt engine sizes
     fn = model.func(SB, "ScryptEngine.__init__")
     for stmt, why in (("self.smix_bytes = r << 7", "block = 128*r bytes"), ("self.iv_bytes = self.smix_bytes * p", "B = p blocks"), ("self.bmix_len = bmix_len = r << 5", "32*r words per block"),
                       ("self.bmix_half_len = r << 4", "16*r words per half"), ("self.bmix_struct = struct.Struct('<' + str(bmix_len) + 'I')", "little-endian words")):
         rep.check(has_stmt(fn, stmt), R, site(SB, "ScryptEngine.__init__"), stmt, why, witness="scrypt block geometry wrong for some r/p")
-    rep.check("integerify = operator.itemgetter(-16)" in ast.unparse(fn), R, site(SB, "ScryptEngine.__init__"), "itemgetter(-16)", "Integerify reads the first word of the last 64-byte sub-block")
+    rep.check("integerify = operator.itemgetter(-16)" in qtext(fn), R, site(SB, "ScryptEngine.__init__"), "itemgetter(-16)", "Integerify reads the first word of the last 64-byte sub-block")
     fn = model.func(SB, "ScryptEngine.run")
-    t = ast.unparse(fn)
+    t = qtext(fn)
     rep.check("input = pbkdf2_hmac('sha256', secret, salt, rounds=1, keylen=iv_bytes)" in t and returns(fn) == ["pbkdf2_hmac('sha256', secret, output, rounds=1, keylen=keylen)"], R,
               site(SB, "ScryptEngine.run"), "PBKDF2-SHA256 in and out", "B = PBKDF2(P, S, 1, p*128*r); DK = PBKDF2(P, B', 1, dkLen)")
     rep.check("smix(input[offset:offset + smix_bytes]) for offset in range(0, iv_bytes, smix_bytes)" in t, R, site(SB, "ScryptEngine.run"), "p independent smix blocks", "each 128*r block mixed separately")
     fn = model.func(SB, "ScryptEngine.smix")
-    t = ast.unparse(fn)
+    t = qtext(fn)
     rep.check("n_mask = n - 1" in t and "j = integerify(buffer) & n_mask" in t and "result = tuple((a ^ b for a, b in zip(buffer, get_v_elem(j))))" in t, R, site(SB, "ScryptEngine.smix"),
               "j = Integerify(X) mod N; X = BlockMix(X xor V[j])", "ROMix second loop")
     whiles = [ast.unparse(n.test) for n in ast.walk(fn) if isinstance(n, ast.While)]
     rep.check(whiles.count("i < n") == 2, R, site(SB, "ScryptEngine.smix"), str(whiles), "both ROMix loops run N times")
     fn = model.func(SB, "ScryptEngine.bmix")
-    t = ast.unparse(fn)
+    t = qtext(fn)
     rep.check("tmp = source[-16:]" in t and "while j < half:" in t and "target[j:jn] = tmp = salsa20((a ^ b for a, b in zip(tmp, siter)))" in t and
               "target[half + j:half + jn] = tmp = salsa20((a ^ b for a, b in zip(tmp, siter)))" in t, R, site(SB, "ScryptEngine.bmix"), "even blocks first half, odd blocks second half",
               "BlockMix: X = last block; Y_i = Salsa(X xor B_i); output Y_0,Y_2,...,Y_1,Y_3,...")
@@ -407,10 +408,10 @@ def rule_saslprep(model, rep):
     rep.check(i_map is not None, R, s, "mapping step", "mapping: B.1 characters removed, C.1.2 spaces -> U+0020")
     rep.check(i_nfkc is not None and i_map is not None and i_map < i_nfkc, R, s, "NFKC after mapping", "normalisation with NFKC after mapping")
     bidi = body[i_bidi] if i_bidi is not None else None
-    ok = bidi is not None and ast.unparse(bidi.test) == "is_ral_char(data[0])" and "if not is_ral_char(data[-1]):" in ast.unparse(bidi) and i_nfkc is not None and i_bidi > i_nfkc
+    ok = bidi is not None and ast.unparse(bidi.test) == "is_ral_char(data[0])" and "if not is_ral_char(data[-1]):" in qtext(bidi) and i_nfkc is not None and i_bidi > i_nfkc
     rep.check(ok, R, s, ast.unparse(bidi.test) if bidi is not None else "<none>", "bidi rule (first and last character RandALCat) is evaluated on the mapped and normalised text",
               witness="right-to-left passwords with a leading/trailing soft hyphen or zero-width space are wrongly rejected; some compatibility characters wrongly accepted")
-    rep.check(has_stmt(fn, "is_ral_char = stringprep.in_table_d1") and "is_forbidden_bidi_char = stringprep.in_table_d2" in ast.unparse(fn), R, s, "D.1 / D.2", "RandALCat = D.1; with it LCat (D.2) is forbidden")
+    rep.check(has_stmt(fn, "is_ral_char = stringprep.in_table_d1") and "is_forbidden_bidi_char = stringprep.in_table_d2" in qtext(fn), R, s, "D.1 / D.2", "RandALCat = D.1; with it LCat (D.2) is forbidden")
     # prohibited tables
     tabs = set()
     for n in ast.walk(fn):
@@ -419,7 +420,7 @@ def rule_saslprep(model, rep):
     need = {"a1", "b1", "c12", "c21_c22", "c3", "c4", "c5", "c6", "c7", "c8", "c9", "d1", "d2"}
     rep.check(need <= tabs, R, s, f"tables used: {sorted(tabs)}", "prohibited output covers A.1, C.2.1/2.2, C.3-C.9 (RFC 4013 section 2.3)", witness="a prohibited character class is accepted")
     loop = [n for n in walk_no_nested(fn) if isinstance(n, ast.For) and ast.unparse(n.iter) == "data"]
-    rep.check(len(loop) == 1 and "for func, err_msg in forbidden_:" in ast.unparse(loop[0]) and "raise ValueError" in ast.unparse(loop[0]), R, s, "for c in data: check all", "every character of the result is checked against every table")
+    rep.check(len(loop) == 1 and qtext(loop[0]).loose("for func, err_msg in forbidden_:") and qtext(loop[0]).loose("raise ValueError"), R, s, "for c in data: check all", "every character of the result is checked against every table")
     rep.check(returns(fn)[-1] == "data" and has_if(fn, "not data", ["return _UEMPTY"]), R, s, "return data", "result is the mapped+normalised string")
     rep.check(has_if(fn, "not isinstance(source, str)"), R, s, "TypeError for non-str", "input must be text")
 
